@@ -406,6 +406,150 @@ Section Model.
 
   Definition parse_max_depth (s : str) : outcome value := parse_with_fuel (fuel_for s) s.
 
+  (* ---------------- allocation meter for Value::parse (C03) ----------------
+     An upper bound on the total number of bytes requested from the allocator by the parser, as a function that follows the
+     same control flow as the parser above (it calls the parser functions for the branch decisions) and charges at every
+     allocation site of parser.rs:
+       String::with_capacity(256) in parse_string                        STRING_CAP
+       string.push(c)                                                    CHAR_COST = 4 bytes * 4 (amortised doubling)
+       hex: String = [..4 chars..].collect() in parse_hex_escape         HEX_TMP = 8 + 16
+       String::from(c) + push in parse_literal                           LIT_BASE + CHAR_COST per character
+       Vec::with_capacity(16) in parse_array / parse_object              ARRAY_CAP * VALUE_SIZE / OBJECT_CAP * MEMBER_SIZE
+       array.push / object.push                                          4 * element size (amortised doubling)
+       key: .as_str().unwrap().to_string()                               4 bytes per character
+     VALUE_SIZE = size_of::<Value>(), MEMBER_SIZE = size_of::<(String, Value)>() on a 64-bit target (the harness reports the
+     real sizes and the real allocation totals; the check compares). *)
+  Definition VALUE_SIZE : N := 32.
+  Definition MEMBER_SIZE : N := 56.
+  Definition CHAR_COST : N := 16.
+  Definition HEX_TMP : N := 24.
+  Definition LIT_BASE : N := 8.
+  Definition slen (s : str) : N := N.of_nat (length s).
+
+  Fixpoint string_cost (bs : bool) (s : str) {struct s} : N :=
+    match s with
+    | [] => 0
+    | c :: r =>
+      if bs then
+        match simple_escape c with
+        | Some d => CHAR_COST + string_cost false r
+        | None =>
+          if c =? ch_u then
+            match r with
+            | h1 :: h2 :: h3 :: h4 :: r4 =>
+              HEX_TMP +
+              match hex4x lg h1 h2 h3 h4 with
+              | None => 0
+              | Some code =>
+                if negb (is_surrogate code) then CHAR_COST + string_cost false r4
+                else
+                  match r4 with
+                  | [] => 0
+                  | b1 :: r5 =>
+                    if negb (b1 =? ch_bslash) then 0
+                    else
+                      match r5 with
+                      | [] => 0
+                      | u1 :: r6 =>
+                        if negb (u1 =? ch_u) then 0
+                        else
+                          match r6 with
+                          | g1 :: g2 :: g3 :: g4 :: r10 =>
+                            HEX_TMP +
+                            match hex4x lg g1 g2 g3 g4 with
+                            | None => 0
+                            | Some code2 =>
+                              match decode_pair code code2 with
+                              | Some ch => CHAR_COST + string_cost false r10
+                              | None => 0
+                              end
+                            end
+                          | _ => 0
+                          end
+                      end
+                  end
+              end
+            | _ => 0
+            end
+          else 0
+        end
+      else if c =? ch_bslash then string_cost true r
+      else if c =? ch_dq then 0
+      else if unescapedb c then CHAR_COST + string_cost false r
+      else 0
+    end.
+
+  Fixpoint cost_value (fuel : nat) (depth : N) (s : str) {struct fuel} : N :=
+    match fuel with
+    | O => 0
+    | S f =>
+      match flush_ws s with
+      | [] => 0
+      | c :: r =>
+        if c =? ch_dq then STRING_CAP + string_cost false r
+        else if c =? ch_lbrack then
+          if depth =? maxd then 0 else ARRAY_CAP * VALUE_SIZE + cost_array f (depth + 1) true r
+        else if c =? ch_lbrace then
+          if depth =? maxd then 0 else OBJECT_CAP * MEMBER_SIZE + cost_object f (depth + 1) false true r
+        else LIT_BASE + CHAR_COST * (1 + slen (fst (span_literal r)))
+      end
+    end
+  with cost_array (fuel : nat) (depth : N) (first : bool) (s : str) {struct fuel} : N :=
+    match fuel with
+    | O => 0
+    | S f =>
+      match flush_ws s with
+      | [] => 0
+      | c :: r =>
+        if c =? ch_rbrack then 0
+        else
+          cost_value f depth (c :: r) +
+          match parse_value f depth (c :: r) with
+          | Ok (v, s2) =>
+            4 * VALUE_SIZE +
+            match flush_ws s2 with
+            | [] => 0
+            | c' :: r' => if c' =? ch_comma then cost_array f depth false r' else 0
+            end
+          | _ => 0
+          end
+      end
+    end
+  with cost_object (fuel : nat) (depth : N) (tc empty : bool) (s : str) {struct fuel} : N :=
+    match fuel with
+    | O => 0
+    | S f =>
+      match flush_ws s with
+      | [] => 0
+      | c :: r =>
+        if c =? ch_rbrace then 0
+        else if c =? ch_comma then
+          if tc then 0 else if empty then 0 else cost_object f depth true empty r
+        else if negb (member_sep_ok lg empty tc) then 0
+        else if negb (c =? ch_dq) then 0
+        else
+          STRING_CAP + string_cost false r +
+          match string_loop lg false r with
+          | Ok (k, s2) =>
+            4 * slen k +
+            match flush_ws s2 with
+            | [] => 0
+            | c2 :: r2 =>
+              if negb (c2 =? ch_colon) then 0
+              else
+                cost_value f depth (flush_ws r2) +
+                match parse_value f depth (flush_ws r2) with
+                | Ok (v, s5) => 4 * MEMBER_SIZE + cost_object f depth false false s5
+                | _ => 0
+                end
+            end
+          | _ => 0
+          end
+      end
+    end.
+
+  Definition parse_cost (s : str) : N := cost_value (fuel_for s) 0 s.
+
   (* ---------------- serialize.rs ---------------- *)
 
   Definition hex_digit (n : N) : N := if n <? 10 then 0x30 + n else 0x57 + n.   (* {:x}: lower case *)
@@ -521,3 +665,4 @@ Definition xparse_legacy (maxd : N) (s : str) : outcome (value str) := parse_max
 Definition xserialize (v : value str) : str := serialize str (fun l => l) v.
 Definition xserialize_pretty (n : N) (v : value str) : str := serialize_pretty str (fun l => l) n v.
 Definition xmax_depth : N := MAX_DEPTH.
+Definition xparse_cost (maxd : N) (s : str) : N := parse_cost str (fun l => Some l) false maxd s.
